@@ -392,6 +392,8 @@ PROPERTIES = {
     "C03": {"level": "model_checking", "campaigns": [CAMPAIGNS["tsv_roundtrip"], CAMPAIGNS["files_universe"]], "assumptions": []},
     "C14": {"level": "model_checking", "campaigns": [CAMPAIGNS["subset_reads"], CAMPAIGNS["subset_wide"], CAMPAIGNS["subset_universe"]], "assumptions": []},
     "C20": {"level": "model_checking", "campaigns": [CAMPAIGNS["err_profile"]],
+            # laws of the reference machine for ANY nesting depth, proved with TLAPS (51 s: thorough tier)
+            "spec_checks": [{"kind": "tlaps", "module": "BiomErrProofs.tla", "deps": ["BiomErrCore.tla"], "thorough_only": True}],
             "assumptions": ["kinds obssize/sampsize cannot be tripped in isolation (the duplicate test is also true "
                             "for every size mismatch and is evaluated first), so their reactions are not exercised"]},
     "C09": {"level": "model_checking", "campaigns": [CAMPAIGNS["merge_pairs"], CAMPAIGNS["merge_universe"]], "assumptions": []},
